@@ -355,6 +355,7 @@ def run(ctx):
     definite_initialisation(ctx)
     no_address_results(ctx)
     outputs_are_truncated(ctx)
+    number_text_is_terminated(ctx)
 
 def _enclosing_case(db, f, node):
     """Names of the case labels of the innermost switch arm containing node (a stable site context)."""
@@ -684,3 +685,90 @@ def outputs_are_truncated(ctx):
             ctx.ob("R14.8", "%s|open_write(%s)|truncates" % (f.name, show(args[0])[:30] if args else "?"), v == 1, f.loc(c),
                    "truncate = %s (%s)" % (show(t) if t is not None else "?", how))
     ctx.floor("R14.8", "open_write calls of the tools", n, 5)
+
+
+TERMINATING_CALLEES = {"Prettify": "judged by this rule", "WriteExponent": "R18.8 runs it for every exponent and compares with str(K) + NUL"}
+
+
+def _leaf_arms(node):
+    """The leaf arms of an if / else-if chain (a missing final else is an arm of its own: None)."""
+    node = node if node is None or node.get("k") != "block" or len(node.get("s", [])) != 1 else node["s"][0]
+    if node is not None and node.get("k") == "if":
+        return _leaf_arms(node.get("then")) + _leaf_arms(node.get("else"))
+    return [node]
+
+
+def number_text_is_terminated(ctx):
+    """R14.9: pdtoa() fills a caller's UNINITIALISED stack buffer (CPPExpression::output, the generators) which is then
+    streamed as a C string.  If an arm leaves out the NUL, what follows the digits in the output is whatever the stack
+    held - bytes of return addresses, different under every address-space layout.  Every leaf arm of pdtoa and of
+    Prettify therefore ends its text: its last write is a 0 byte (for constant texts: at the index that follows the
+    last character), or it ends in a call that is itself shown to terminate the text.
+    (Seed S8-C14: the inf/nan arms became memcpy(buffer, "inf", 3).)"""
+    db = ctx.db
+    ctx.rule("R14.9", "every leaf arm of pdtoa()/Prettify() ends with `buffer[k] = 0` (k = the number of characters before it when they are constants), a strcpy/memcpy that includes the terminator, or a call of Prettify/WriteExponent")
+    n = 0
+    for short in ("pdtoa", "Prettify"):
+        fs = [g for g in db.functions if g.name.split("::")[-1] == short and g.file.endswith("pdtoa.cxx")]
+        if not fs:
+            ctx.broken("R14.9: %s not found in pdtoa.cxx" % short)
+            continue
+        f = fs[0]
+        chain = [y for y in (f.body.get("s") or []) if y.get("k") == "if"]
+        if not chain:
+            ctx.broken("R14.9: %s has no if-chain" % short)
+            continue
+        arms = _leaf_arms(chain[-1])
+        for i, arm in enumerate(arms):
+            n += 1
+            inst = "%s|arm#%d|terminated" % (short, i)
+            if arm is None:
+                ctx.ob("R14.9", inst, False, f.loc(chain[-1]), "an input for which no arm writes anything")
+                continue
+            stmts = arm.get("s") if arm.get("k") == "block" else [arm]
+            stores = {}
+            last = None
+            ok, why = False, "the arm's last write is not a terminator"
+            for st in stmts:
+                t = assigned_target(st)
+                if t:
+                    tgt = strip_casts(peel(t[0]))
+                    if tgt is not None and tgt.get("k") == "idx":
+                        ix = const_int(tgt.get("x"))
+                        v = const_int(t[1])
+                        stores[ix] = v
+                        last = ("store", ix, v)
+                        continue
+                c = strip_casts(peel(st)) if st is not None else None
+                if c is not None and c.get("k") == "call":
+                    cs = callee_short(c)
+                    if cs in TERMINATING_CALLEES:
+                        last = ("call", cs)
+                        continue
+                    if cs in ("memcpy", "strcpy", "__builtin_memcpy", "__builtin_strcpy") and len(c.get("a", [])) >= 2:
+                        lit = strip_casts(peel(c["a"][1]))
+                        text = lit.get("v") if lit is not None and lit.get("k") == "str" else None
+                        cnt = const_int(c["a"][2]) if len(c["a"]) > 2 else None
+                        if text is not None and (cs.endswith("strcpy") or (cnt is not None and cnt == len(text) + 1)):
+                            last = ("copy-with-nul", text)
+                        else:
+                            last = ("copy", text)
+                        continue
+                if st is not None and st.get("k") in ("for", "decls"):
+                    continue
+                last = ("other", st.get("k") if st else None)
+            if last and last[0] == "call":
+                ok, why = True, "ends in %s(), %s" % (last[1], TERMINATING_CALLEES[last[1]])
+            elif last and last[0] == "copy-with-nul":
+                ok, why = True, "copies %r including its terminator" % last[1]
+            elif last and last[0] == "store" and last[2] == 0:
+                const_idx = [k for k in stores if k is not None]
+                if last[1] is None:
+                    ok, why = True, "the last write is a 0 byte (at a computed index)"
+                else:
+                    chars = sorted(k for k in const_idx if stores[k] not in (0, None))
+                    ok = chars == list(range(last[1]))
+                    why = "%d constant character(s) and the 0 byte at index %d" % (len(chars), last[1]) if ok else \
+                        "the 0 byte is at index %d but the characters are at %s" % (last[1], chars)
+            ctx.ob("R14.9", inst, ok, f.loc(arm), why)
+    ctx.floor("R14.9", "leaf arms of pdtoa and Prettify", n, 10)
